@@ -230,6 +230,16 @@ class Interp:
             if c not in hier:
                 raise Unsupported("unknown exception class %s" % c)
             todo.extend(hier[c])
+        if exc.cls in (getattr(self.c, "arbitrary_exception_classes", ()) or ()):
+            # an exception of a class the contract leaves open (a user function's): it is none of the classes the contract
+            # declares itself, but it may or may not be an instance of any other class named in a handler
+            own = getattr(self.c, "exc_hierarchy", {}) or {}
+            if name in own:
+                return False
+            memo = exc.__dict__.setdefault("_matches", {})
+            if name not in memo:
+                memo[name] = self.ctx.choose(2, "the-exception-is-a-" + name) == 0
+            return memo[name]
         return False
 
     def st_FunctionDef(self, s):
@@ -742,8 +752,12 @@ class Interp:
         if isinstance(v, str):
             if getattr(self.c, "strings_symbolic", False):
                 return VStr(v)
-            return VPy(v)
-        return VPy(v)
+            r = VPy(v)
+            r.literal = True          # a constant of the program text (as opposed to a placeholder a contract supplies)
+            return r
+        r = VPy(v)
+        r.literal = True
+        return r
 
     def ex_JoinedStr(self, e):
         if getattr(self.c, "concrete_fstrings", False):
@@ -1044,7 +1058,15 @@ class Interp:
         if isinstance(a, VSet) and isinstance(b, VSet):
             return a.t == b.t
         if isinstance(a, VPy) and isinstance(b, VPy):
-            return z3.BoolVal(a.py == b.py)
+            if a is b or a.py == b.py:
+                return z3.BoolVal(True)
+            if getattr(a, "literal", False) and getattr(b, "literal", False):
+                return z3.BoolVal(False)
+            if getattr(self.c, "placeholders_are_distinct_constants", False):
+                return z3.BoolVal(False)
+            # a placeholder of the contract (an argument whose value it leaves open) compared with something else: the
+            # outcome is not determined by the contract's model
+            self.unsupported(node, "comparison of the opaque value %r with %r" % (a.py, b.py))
         if isinstance(a, VList) and isinstance(b, VInt):
             return z3.BoolVal(False)
         hook = getattr(self.c, "equal_hook", None)
